@@ -43,6 +43,8 @@ func main() {
 			os.Exit(2)
 		}
 		ctx := core.NewCtx(id, *tier, chk.Level)
+		ctx.Assumptions = append(ctx.Assumptions, props.Assumptions["*"]...)
+		ctx.Assumptions = append(ctx.Assumptions, props.Assumptions[id]...)
 		pool := par.NewPool(ctx.Procs, "child")
 		chk.Run(ctx, pool)
 		pool.Close()
